@@ -125,7 +125,7 @@ Section Main.
 
   (* ---- runs ---------------------------------------------------------------------------------------- *)
   Section Runs.
-    Variable fin : decl -> list unt -> term.
+    Variable fin : decl -> list unt -> res.
     Variable step : mstate -> sres.
     Variable bad : term -> Prop.
 
@@ -165,18 +165,18 @@ Section Main.
   Lemma edi_step_deliver : step_deliver (edi_step try_leaf).
   Proof. intros st t H. unfold edi_step. rewrite H. reflexivity. Qed.
 
-  Definition fin_std (_ : decl) (us : list unt) : term := std_fin us.
+  Definition fin_std (_ : decl) (us : list unt) : res := ([], std_fin us).
 
   Lemma hstep_ok : step_ok fin_std (hstep try_leaf) (fun _ => False).
   Proof. intros st Hinv Ht _. apply hstep_K; auto. Qed.
 
   (* ---- EDI: the name test comes before the "only the root is left" test ---------------------------- *)
   Definition ROOT_AGAIN := TPanic 99.
-  Definition fin_edi (d : decl) (us : list unt) : term :=
-    match us with
-    | [] => TEof
-    | _ :: _ => if starts try_leaf d us then ROOT_AGAIN else TErrUnexpected
-    end.
+  Definition fin_edi (d : decl) (us : list unt) : res :=
+    ([], match us with
+         | [] => TEof
+         | _ :: _ => if starts try_leaf d us then ROOT_AGAIN else TErrUnexpected
+         end).
 
   Lemma edi_eq_hstep : forall st, m_tgt st = None -> m_stk st <> [] ->
     (forall top, m_stk st = [top] -> starts try_leaf (e_decl top) (m_rest st) = false) ->
@@ -195,21 +195,21 @@ Section Main.
   Proof.
     intros st Hinv Ht Hbad.
     assert (Hsingle : forall top, m_stk st = [top] ->
-              fin_edi (e_decl top) (m_rest st) = std_fin (m_rest st) /\
+              fin_edi (e_decl top) (m_rest st) = ([], std_fin (m_rest st)) /\
               starts try_leaf (e_decl top) (m_rest st) = false).
     { intros top Hstk. destruct st as [stk tgt us]. cbn [m_stk m_tgt m_rest] in *. subst stk tgt.
       unfold HierSim.Kst in Hbad. cbn [m_stk m_tgt m_rest tl_of] in Hbad.
       rewrite app_res_nil, (Ktop_single try_leaf fin_edi top us Hinv) in Hbad. cbn [snd] in Hbad.
       destruct us as [|u r].
       - split; [reflexivity|]. destruct Hinv as (Hwf & _). apply (starts_nil try_leaf); exact Hwf.
-      - unfold fin_edi in *. destruct (starts try_leaf (e_decl top) (u :: r)); [congruence|]. split; reflexivity. }
+      - unfold fin_edi in *. cbn [snd] in Hbad. destruct (starts try_leaf (e_decl top) (u :: r)); [exfalso; apply Hbad; reflexivity|]. split; reflexivity. }
     rewrite edi_eq_hstep; [|exact Ht|destruct (m_stk st); [destruct Hinv|discriminate]|intros top H; apply Hsingle; exact H].
     apply hstep_K; auto. intros top H. apply Hsingle; exact H.
   Qed.
 
   (* ---- initial state -------------------------------------------------------------------------------- *)
-  Definition spec_gen (fin : decl -> list unt -> term) (ds : list decl) (us : list unt) : res :=
-    mbind (seql ds us) (fun _ us' => ([], fin (root_decl ds) us')).
+  Definition spec_gen (fin : decl -> list unt -> res) (ds : list decl) (us : list unt) : res :=
+    mbind (seql ds us) (fun _ us' => fin (root_decl ds) us').
 
   Lemma spec_gen_std : forall ds us, spec try_leaf ds us = spec_gen fin_std ds us.
   Proof.
@@ -281,7 +281,7 @@ Section Main.
       { rewrite spec_gen_std. unfold spec_gen, no_root_repeat in *.
         destruct (seql (d0 :: r) us) as [e a [|u rest]|e t] eqn:Es; cbn.
         - split; [reflexivity|discriminate].
-        - cbn in Hg. rewrite Hg. split; [reflexivity|discriminate].
+        - cbn in Hg. unfold fin_edi, fin_std, std_fin. cbn [root_decl starts d_kids]. rewrite Hg. split; [reflexivity|discriminate].
         - split; [reflexivity|]. apply seql_term in Es. intros ->. exact Es. }
       destruct Hgen as [Hgen Hnb]. rewrite <- Hgen, <- Kst_init.
       apply (run_K fin_edi (edi_step try_leaf) (fun t => t = ROOT_AGAIN) edi_step_ok edi_step_deliver); auto.
